@@ -295,7 +295,15 @@ def build(case):
             kw["clk_edge"] = tree["b_edge"]
         cds[dn] = ClockDomain(dn, **kw)
         top.domains += cds[dn]
-    top.submodules.root = wrapped[0]
+    if len(nodes) % 2 == 0:
+        # a group module without statements of its own that holds the design first and hollow modules after it
+        grp, hollow = Module(), Module()
+        hollow.submodules.nothing = Module()
+        grp.submodules.root = wrapped[0]
+        grp.submodules.hollow = hollow
+        top.submodules.group = grp
+    else:
+        top.submodules.root = wrapped[0]
     for i, e in enumerate(elabs):
         if e.own_cd is not None:
             cds[f"own{i}"] = e.own_cd
